@@ -301,9 +301,14 @@ func (w *World) opAdd(p *podState, op Op) {
 		// daemon's view (reference model of C04)
 		w.run.Eval()
 		if heldBefore && (recV4 != v4 || recV6 != v6) && p.exists {
-			w.run.Violate("C04", "repeat-add", "repeated-add-different-address",
+			fp := "repeated-add-different-address"
+			if w.k1Victim[p.spec.Name] {
+				// the address was unassigned from under the pod (K1): the daemon no longer has it
+				fp += "@recycled-address"
+			}
+			w.run.Violate("C04", "repeat-add", fp,
 				"pod %s held %s/%s and a repeated ADD returned %s/%s", p.spec.Name, recV4, recV6, v4, v6)
-			w.run.Violate("C01", "stickiness", "repeated-add-different-address",
+			w.run.Violate("C01", "stickiness", fp,
 				"pod %s held %s/%s and a repeated ADD returned %s/%s", p.spec.Name, recV4, recV6, v4, v6)
 		}
 		p.recCID, p.recV4, p.recV6 = req.K8SPodInfraContainerId, v4, v6
